@@ -127,10 +127,10 @@ Proof.
   unfold append_val in Ha. destruct (push_last v (m_raw m)); inversion Ha. reflexivity.
 Qed.
 
-Lemma idx_inv_push l k i m m' v : idx_inv l k -> fm_get i l = Some m -> append_val v m = Some m' ->
+Lemma idx_inv_push l k i m m' v : trivV v -> idx_inv l k -> fm_get i l = Some m -> append_val v m = Some m' ->
   idx_inv (fm_update i (push_index (k + 1)) (fm_update i (fun _ => m') l)) (k + 1).
 Proof.
-  intros H E Ha. pose proof (idx_inv_addval l k i m m' v H E Ha) as [H1 [H2 [H3 H4]]].
+  intros _ H E Ha. pose proof (idx_inv_addval l k i m m' v H E Ha) as [H1 [H2 [H3 H4]]].
   assert (E' : fm_get i (fm_update i (fun _ => m') l) = Some m') by (rewrite fm_get_update, E, beq_refl; reflexivity).
   set (l' := fm_update i (fun _ => m') l) in *.
   destruct (fm_split i l' m' E') as [l1 [k' [l2 [Hl [_ [Hu _]]]]]]. rewrite Hu.
@@ -155,23 +155,23 @@ Proof.
     eapply Forall_impl; [|exact H3]. cbn; intros; lia.
 Qed.
 
-Theorem idx_inv_closed : closedP idx_inv.
+Theorem idx_inv_closed c : closedP c trivV idx_inv.
 Proof.
   unfold closedP. split; [exact idx_inv_bump|]. split; [exact idx_inv_remove|].
-  split; [exact idx_inv_entry|]. split; [exact idx_inv_addval|]. split; [exact idx_inv_push|].
+  split; [exact idx_inv_entry|]. split; [intros l k i j m m' v _; apply idx_inv_addval|]. split; [exact idx_inv_push|].
   repeat split; constructor.
 Qed.
 
 (** * the theorems *)
 (** every successful level of the recursion (any depth, any entry state satisfying the invariant) *)
 Theorem level_indices fuel c toks st0 st :
-  tree_ok fuel c -> G c idx_inv st0 -> get_matches_with fuel c toks st0 = ROk st ->
+  tree_ok fuel c -> G c idx_inv trivV st0 -> get_matches_with fuel c toks st0 = ROk st ->
   idx_inv (mt_args (mt st)) (cur_idx st).
 Proof.
   intros Hok HG Hr.
   assert (Hvt : forall c m, wfc c -> assert_app c = true -> entries_ok c (mt_args m) -> forall s, validate c m <> VPanic s).
   { intros c' m _ Happ He s. apply validate_total; [apply assert_app_rel_wf; exact Happ|exact He]. }
-  pose proof (gmw_safe idx_inv idx_inv_closed Hvt fuel c toks st0 Hok HG) as Hs.
+  pose proof (gmw_safe (fun _ _ => trivV) (fun _ _ => idx_inv) (fun c' _ => idx_inv_closed c') trivV_ok Hvt fuel c toks st0 Hok HG) as Hs.
   rewrite Hr in Hs. cbn in Hs. apply Hs.
 Qed.
 
@@ -184,7 +184,7 @@ Theorem root_indices c0 toks st :
 Proof.
   intros Hp Hv Hr. unfold valid in Hv. cbn zeta in Hv.
   eapply level_indices; [apply tree_ok_of_valid; eassumption| |exact Hr].
-  apply G_ps_new. destruct idx_inv_closed as [_ [_ [_ [_ [_ H0]]]]]. exact H0.
+  apply G_ps_new. destruct (idx_inv_closed (build_self c0)) as [_ [_ [_ [_ [_ H0]]]]]. exact H0.
 Qed.
 
 (** * consequence for C03: the key-uniqueness hypothesis of the validator's soundness theorem
@@ -201,7 +201,7 @@ Proof.
 Qed.
 
 Theorem level_relations fuel c toks st0 st :
-  tree_ok fuel c -> G c idx_inv st0 -> get_matches_with fuel c toks st0 = ROk st ->
+  tree_ok fuel c -> G c idx_inv trivV st0 -> get_matches_with fuel c toks st0 = ROk st ->
   Relations c (mt st).
 Proof.
   intros Hok HG Hr. destruct fuel as [|f]; [destruct Hok|]. pose proof Hok as [_ [Happ _]].
